@@ -27,11 +27,19 @@ Definition tok (t : tstate) : Prop :=
   trev t < two64 /\
   match t with
   | TSetCommit val rv _ => rec_wf val /\ floor_of val <= rv
+  | TRacePut val rv _ _ => rec_wf val /\ floor_of val <= rv
   | _ => True
   end.
 
+(* ... and, once its setCompactRecord is through, the floor is at or above its revision *)
+Definition tinv (rec : option bytes) (t : tstate) : Prop :=
+  tok t /\ match t with TRaceGet rv _ _ | TRacePut _ rv _ _ => rv <= floor_of rec | _ => True end.
+
+Lemma tinv_mono rec rec' t : tinv rec t -> floor_of rec <= floor_of rec' -> tinv rec' t.
+Proof. intros [H1 H2] Hle. split; [exact H1|]. destruct t; try exact I; lia. Qed.
+
 Definition xwf (s : xstate) : Prop :=
-  cwf (x_c s) /\ c_cur (x_c s) < two64 /\ Forall (fun p => tok (snd p)) (x_thr s).
+  cwf (x_c s) /\ c_cur (x_c s) < two64 /\ Forall (fun p => tinv (c_rec (x_c s)) (snd p)) (x_thr s).
 
 Lemma find_thr_in i l t : find_thr i l = Some t -> In (i, t) l.
 Proof.
@@ -42,28 +50,27 @@ Qed.
 Lemma drop_thr_forall (P : N * tstate -> Prop) i l : Forall P l -> Forall P (drop_thr i l).
 Proof. intros H. apply Forall_forall. intros x Hx. apply filter_In in Hx as [Hx _]. rewrite Forall_forall in H. auto. Qed.
 
-(* one engine call of a thread: well-formedness, and the floor is lowered only by the unconditional Put of
-   checkCompactRace, and only when the thread's revision is below the current floor *)
+(* one engine call of a thread keeps the record well-formed and never lowers the floor: every write of the record
+   is a compare-and-swap (or put-if-absent) against a value that was read at or below the thread's revision *)
 Lemma tstep_spec rec t :
-  rec_wf rec -> tok t ->
+  rec_wf rec -> tinv rec t ->
   let '(rec', nx) := tstep rec t in
   rec_wf rec' /\
-  (match nx with TGo t' => tok t' | TEnd CPanic => False | TEnd COk => trev t <= floor_of rec' | TEnd CErr => True end) /\
-  (floor_of rec <= floor_of rec' \/
-   (exists rv k, t = TRacePut rv k /\ floor_of rec' = rv /\ rv < floor_of rec)).
+  (match nx with TGo t' => tinv rec' t' | TEnd CPanic => False | TEnd COk => trev t <= floor_of rec' | TEnd CErr => True end) /\
+  floor_of rec <= floor_of rec'.
 Proof.
-  intros Hw [Hrv Ht]. destruct t as [rv n|val rv n|rv k|rv k]; cbn [tstep trev] in *.
+  intros Hw [[Hrv Ht] Hfl]. destruct t as [rv n|val rv n|rv k a|val rv k a]; cbn [tstep trev] in *.
   - (* setCompactRecord: Get *)
     destruct Hw as [->|[c [-> Hc]]].
-    + split; [left; reflexivity|]. split; [|left; lia].
-      split; [exact Hrv|]. split; [left; reflexivity|cbn; lia].
+    + split; [left; reflexivity|]. split; [|lia].
+      split; [|exact I]. split; [exact Hrv|]. split; [left; reflexivity|cbn; lia].
     + destruct (be64 c) as [|x v'] eqn:Eb; [exfalso; eapply be64_not_nil; eauto|]. rewrite <- Eb.
       rewrite u64_of_be64 by exact Hc.
       destruct (rv <? c) eqn:E.
-      * apply N.ltb_lt in E. split; [right; eauto|]. split; [|left; lia].
-        destruct n; cbn [after_set trev]; [rewrite floor_of_be64 by exact Hc; lia|split; [exact Hrv|exact I]].
-      * apply N.ltb_ge in E. split; [right; eauto|]. split; [|left; lia].
-        split; [exact Hrv|]. split; [right; eauto|]. rewrite floor_of_be64 by exact Hc. exact E.
+      * apply N.ltb_lt in E. split; [right; eauto|]. split; [|lia]. rewrite <- (floor_of_be64 c Hc) in E.
+        destruct n; cbn [after_set trev]; [lia|]. split; [split; [exact Hrv|exact I]|lia].
+      * apply N.ltb_ge in E. split; [right; eauto|]. split; [|lia].
+        split; [|exact I]. split; [exact Hrv|]. split; [right; eauto|]. rewrite floor_of_be64 by exact Hc. exact E.
   - (* setCompactRecord: Commit *)
     destruct Ht as [Hval Hle].
     set (ok := match val with Some (_ :: _) => opt_eqb beqb rec val | _ => match rec with None => true | Some _ => false end end).
@@ -73,28 +80,35 @@ Proof.
       - intros E. apply opt_beqb_eq' in E. subst rec. exact Hle.
       - destruct rec; [discriminate|]. cbn. lia. }
     fold ok. destruct ok.
-    + split; [right; eauto|]. split; [|left; rewrite floor_of_be64 by exact Hrv; auto].
-      destruct n; cbn [after_set trev]; [rewrite floor_of_be64 by exact Hrv; lia|split; [exact Hrv|exact I]].
-    + split; [exact Hw|]. split; [exact I|left; lia].
+    + specialize (Hok eq_refl). split; [right; eauto|]. rewrite floor_of_be64 by exact Hrv. split; [|exact Hok].
+      destruct n; cbn [after_set trev]; [apply N.le_refl|]. split; [split; [exact Hrv|exact I]|change (rv <= floor_of (Some (be64 rv))); rewrite floor_of_be64 by exact Hrv; apply N.le_refl].
+    + clear Hok. split; [exact Hw|]. split; [exact I|lia].
   - (* checkCompactRace: Get *)
     destruct Hw as [->|[c [-> Hc]]].
-    + split; [left; reflexivity|]. split; [split; [exact Hrv|exact I]|left; lia].
+    + split; [left; reflexivity|]. split; [|lia]. split; [|exact Hfl]. split; [exact Hrv|]. split; [left; reflexivity|cbn; lia].
     + rewrite be64_length. cbn [Nat.eqb andb]. rewrite from_be_be64 by exact Hc.
-      destruct (rv <? c) eqn:E.
-      * apply N.ltb_lt in E. split; [right; eauto|]. split; [|left; lia].
-        destruct k as [|[|k']]; cbn [after_range trev]; try (rewrite floor_of_be64 by exact Hc; lia). split; [exact Hrv|exact I].
-      * split; [right; eauto|]. split; [split; [exact Hrv|exact I]|left; lia].
-  - (* checkCompactRace: Put *)
-    split; [right; eauto|]. split.
-    + destruct k as [|[|k']]; cbn [after_range trev]; try (rewrite floor_of_be64 by exact Hrv; lia). split; [exact Hrv|exact I].
-    + rewrite floor_of_be64 by exact Hrv. destruct (N.le_gt_cases (floor_of rec) rv) as [H|H]; [left; exact H|right; eauto].
+      destruct (rv <=? c) eqn:E.
+      * split; [right; eauto|]. split; [|lia].
+        destruct k as [|[|k']]; cbn [after_range trev]; try exact Hfl. split; [split; [exact Hrv|exact I]|exact Hfl].
+      * apply N.leb_gt in E. split; [right; eauto|]. split; [|lia]. split; [|exact Hfl].
+        split; [exact Hrv|]. split; [right; eauto|]. rewrite floor_of_be64 by exact Hc. lia.
+  - (* checkCompactRace: Commit of the conditional write *)
+    destruct Ht as [Hval Hle].
+    set (ok := match val with Some _ => opt_eqb beqb rec val | None => match rec with None => true | Some _ => false end end).
+    assert (Hok : ok = true -> floor_of rec <= rv).
+    { unfold ok. destruct val as [v|].
+      - intros E. apply opt_beqb_eq' in E. subst rec. exact Hle.
+      - destruct rec; [discriminate|]. cbn. lia. }
+    fold ok. destruct ok.
+    + specialize (Hok eq_refl). split; [right; eauto|]. rewrite floor_of_be64 by exact Hrv. split; [|exact Hok].
+      destruct k as [|[|k']]; cbn [after_range trev]; try apply N.le_refl. split; [split; [exact Hrv|exact I]|change (rv <= floor_of (Some (be64 rv))); rewrite floor_of_be64 by exact Hrv; apply N.le_refl].
+    + clear Hok. destruct (Nat.leb race_attempts a).
+      * split; [exact Hw|]. split; [|lia].
+        destruct k as [|[|k']]; cbn [after_range trev]; try exact Hfl. split; [split; [exact Hrv|exact I]|exact Hfl].
+      * split; [exact Hw|]. split; [|lia]. split; [split; [exact Hrv|exact I]|exact Hfl].
 Qed.
 
 (* ---------- steps of the two-level system ---------- *)
-
-Definition lowering (s : xstate) (op : cop) : Prop :=
-  exists i ph rv k, op = CThread i ph /\ find_thr i (x_thr s) = Some (TRacePut rv k) /\
-                    floor (fst (xstep s op)) = rv /\ rv < floor s.
 
 Lemma xstep_cur s op : c_cur (x_c s) <= c_cur (x_c (fst (xstep s op))).
 Proof.
@@ -107,45 +121,46 @@ Proof.
     destruct (tstep (c_rec (x_c s)) t) as [rec' [t'|res]]; cbn [fst x_c c_cur]; apply N.le_refl.
 Qed.
 
+Lemma forall_tinv_mono rec rec' (l : list (N * tstate)) :
+  floor_of rec <= floor_of rec' -> Forall (fun p => tinv rec (snd p)) l -> Forall (fun p => tinv rec' (snd p)) l.
+Proof. intros Hle H. eapply Forall_impl; [|exact H]. intros p Hp. exact (tinv_mono rec rec' (snd p) Hp Hle). Qed.
+
+(* every step - of a sequential request, or one engine call of any compaction thread - keeps the system well-formed
+   and does not lower the floor *)
 Lemma xstep_spec s op :
   xwf s -> c_cur (x_c (fst (xstep s op))) < two64 ->
-  xwf (fst (xstep s op)) /\ (floor s <= floor (fst (xstep s op)) \/ lowering s op).
+  xwf (fst (xstep s op)) /\ floor s <= floor (fst (xstep s op)).
 Proof.
   intros (Hw & Hc & Ht) Hb.
   assert (Hseq : forall op', (forall i r n, op' <> CSpawn i r n) -> (forall i ph, op' <> CThread i ph) ->
             xstep s op' = (let '(c', o) := cstep (x_c s) op' in (mkX c' (x_thr s), o))).
   { intros op' H1 H2. destruct op'; try reflexivity; [exfalso; eapply H1; eauto|exfalso; eapply H2; eauto]. }
   assert (Hord : (forall i r n, op <> CSpawn i r n) -> (forall i ph, op <> CThread i ph) ->
-            xwf (fst (xstep s op)) /\ (floor s <= floor (fst (xstep s op)) \/ lowering s op)).
+            xwf (fst (xstep s op)) /\ floor s <= floor (fst (xstep s op))).
   { intros H1 H2. rewrite (Hseq op H1 H2) in *. destruct (cstep (x_c s) op) as [c' o] eqn:E. cbn [fst x_c] in *.
     assert (Ec : c' = fst (cstep (x_c s) op)) by (rewrite E; reflexivity).
     destruct (cstep_spec (x_c s) op Hw) as (A1 & A2 & A3); [rewrite <- Ec; exact Hb|]. rewrite <- Ec in *.
-    split; [split; [exact A1|split; [exact Hb|exact Ht]]|left; exact A3]. }
+    split; [split; [exact A1|split; [exact Hb|]]|exact A3]. cbn [x_thr]. eapply forall_tinv_mono; eauto. }
   destruct op; try (apply Hord; intros; discriminate).
   - (* spawn *)
-    cbn [xstep fst x_c] in *. split; [|left; unfold floor; cbn; lia].
+    cbn [xstep fst x_c] in *. split; [|unfold floor; cbn; lia].
     split; [exact Hw|]. split; [exact Hc|]. cbn [x_thr]. apply Forall_app. split; [apply drop_thr_forall; exact Ht|].
-    constructor; [|constructor]. cbn [snd]. split; [|exact I]. cbn [trev].
+    constructor; [|constructor]. cbn [snd]. split; [|exact I]. split; [|exact I]. cbn [trev].
     pose proof (clamp_le (c_cur (x_c s)) (c_retry (x_c s)) r). lia.
   - (* one engine call of a thread *)
     cbn [xstep] in *. destruct (find_thr i (x_thr s)) as [t|] eqn:Ef.
-    2:{ cbn [fst]. split; [split; [exact Hw|split; assumption]|left; lia]. }
-    assert (Htok : tok t).
+    2:{ cbn [fst]. split; [split; [exact Hw|split; assumption]|lia]. }
+    assert (Htok : tinv (c_rec (x_c s)) t).
     { apply find_thr_in in Ef. rewrite Forall_forall in Ht. apply (Ht _ Ef). }
     pose proof (tstep_spec (c_rec (x_c s)) t Hw Htok) as Hs.
     destruct (tstep (c_rec (x_c s)) t) as [rec' nx] eqn:Et. destruct Hs as (S1 & S2 & S3).
-    assert (Hfl : floor s <= floor_of rec' \/
-                  (exists rv k, t = TRacePut rv k /\ floor_of rec' = rv /\ rv < floor s)) by exact S3.
+    pose proof (forall_tinv_mono _ _ _ S3 Ht) as Ht'.
     destruct nx as [t'|res]; cbn [fst x_c x_thr c_cur c_rec] in *.
-    + split.
-      * split; [exact S1|]. split; [exact Hb|]. apply Forall_app. split; [apply drop_thr_forall; exact Ht|].
-        constructor; [exact S2|constructor].
-      * destruct Hfl as [H|(rv & k & -> & H1 & H2)]; [left; exact H|right].
-        exists i, ph, rv, k. cbn [xstep]. rewrite Ef, Et. cbn [fst]. unfold floor. cbn [x_c c_rec]. auto.
-    + split.
-      * split; [exact S1|]. split; [exact Hb|]. apply drop_thr_forall; exact Ht.
-      * destruct Hfl as [H|(rv & k & -> & H1 & H2)]; [left; exact H|right].
-        exists i, ph, rv, k. cbn [xstep]. rewrite Ef, Et. cbn [fst]. unfold floor. cbn [x_c c_rec]. auto.
+    + split; [|exact S3].
+      split; [exact S1|]. split; [exact Hb|]. apply Forall_app. split; [apply drop_thr_forall; exact Ht'|].
+      constructor; [exact S2|constructor].
+    + split; [|exact S3].
+      split; [exact S1|]. split; [exact Hb|]. apply drop_thr_forall; exact Ht'.
 Qed.
 
 Lemma xrun_cur_mono ops : forall s, c_cur (x_c s) <= c_cur (x_c (xrun s ops)).
@@ -154,31 +169,16 @@ Proof.
   pose proof (xstep_cur s op). specialize (IH (fst (xstep s op))). lia.
 Qed.
 
-(* a thread's unconditional Put happens in a state whose floor is not above the thread's revision *)
-Definition put_ok (s : xstate) (op : cop) : Prop :=
-  match op with
-  | CThread i _ => match find_thr i (x_thr s) with Some (TRacePut rv _) => floor s <= rv | _ => True end
-  | _ => True
-  end.
-
-Fixpoint puts_ok (s : xstate) (ops : list cop) : Prop :=
-  match ops with [] => True | op :: t => put_ok s op /\ puts_ok (fst (xstep s op)) t end.
-
-(* C08_floor_monotone for overlapping compactions, except finding C08-F1: along every interleaving of engine calls
-   of any number of compaction threads with writes and reads in which no thread's unconditional Put lands on a
-   floor above its revision, the floor never decreases. setCompactRecord's steps never lower it, whatever happens
-   between its Get and its Commit. *)
+(* C08_floor_monotone for overlapping compactions, at full strength: along every interleaving of the engine calls of
+   any number of compaction threads with writes and reads the floor never decreases *)
 Theorem floor_monotone_x ops : forall s,
-  xwf s -> c_cur (x_c (xrun s ops)) < two64 -> puts_ok s ops ->
+  xwf s -> c_cur (x_c (xrun s ops)) < two64 ->
   xwf (xrun s ops) /\ floor s <= floor (xrun s ops).
 Proof.
-  induction ops as [|op ops IH]; intros s Hw Hb Hp; cbn [xrun] in *; [split; [exact Hw|lia]|].
-  destruct Hp as [Hp1 Hp2].
+  induction ops as [|op ops IH]; intros s Hw Hb; cbn [xrun] in *; [split; [exact Hw|lia]|].
   pose proof (xrun_cur_mono ops (fst (xstep s op))) as Hm.
   destruct (xstep_spec s op Hw) as (W1 & Hf); [lia|].
-  destruct (IH _ W1 Hb Hp2) as (W2 & F2). split; [exact W2|].
-  destruct Hf as [Hf|(i & ph & rv & k & -> & Ef & E1 & E2)]; [lia|].
-  exfalso. cbn [put_ok] in Hp1. rewrite Ef in Hp1. lia.
+  destruct (IH _ W1 Hb) as (W2 & F2). split; [exact W2|lia].
 Qed.
 
 (* C08_accepted_sets_floor for a compaction thread: when it ends without error the floor is at or above its revision *)
@@ -186,86 +186,55 @@ Lemma thread_accept s i ph s' h :
   xwf s -> xstep s (CThread i ph) = (s', OCompact h COk) -> h <= floor s'.
 Proof.
   intros (Hw & Hc & Ht) E. cbn [xstep] in E. destruct (find_thr i (x_thr s)) as [t|] eqn:Ef; [|discriminate].
-  assert (Htok : tok t) by (apply find_thr_in in Ef; rewrite Forall_forall in Ht; apply (Ht _ Ef)).
+  assert (Htok : tinv (c_rec (x_c s)) t) by (apply find_thr_in in Ef; rewrite Forall_forall in Ht; apply (Ht _ Ef)).
   pose proof (tstep_spec (c_rec (x_c s)) t Hw Htok) as Hs.
   destruct (tstep (c_rec (x_c s)) t) as [rec' [t'|res]]; [discriminate|].
   injection E as <- <- ->. destruct Hs as (_ & S2 & _). unfold floor. cbn [x_c c_rec]. exact S2.
 Qed.
 
-(* ---------- the oracle accepts what the model produces, or names finding 1 on its signature ---------- *)
+(* ---------- the oracle accepts what the model produces ---------- *)
 
 Definition c08_valid (c : c08_case) : Prop := c8_init c < two64 /\ Forall (fun st => s8_cur st < two64) (c8_steps c).
 
-Definition fine (o : option N) : Prop := o = None \/ o = Some 1.
-
-Lemma worse8_fine a b : fine a -> fine b -> fine (worse8 a b).
-Proof. intros [->| ->] [->| ->]; cbn; unfold fine; auto. Qed.
-
 Lemma c08_run_orc steps : forall s,
   xwf s -> Forall (fun st => s8_cur st < two64) steps ->
-  c08_run s steps = true -> fine (c08_orc (c_cur (x_c s)) (floor s) steps).
+  c08_run s steps = true -> c08_orc (c_cur (x_c s)) (floor s) steps = None.
 Proof.
-  induction steps as [|st t IH]; intros s Hw Hv Hrun; [left; reflexivity|].
+  induction steps as [|st t IH]; intros s Hw Hv Hrun; [reflexivity|].
   inversion Hv as [|? ? Hv1 Hv2]; subst.
   cbn [c08_run] in Hrun. destruct (xstep s (s8_op st)) as [s' o] eqn:E.
   repeat (apply andb_true_iff in Hrun as [Hrun ?]).
   apply cobs_eqb_eq in H2. apply N.eqb_eq in H1. apply opt_beqb_eq' in H0.
   assert (Es' : s' = fst (xstep s (s8_op st))) by (rewrite E; reflexivity).
-  destruct (xstep_spec s (s8_op st) Hw) as (Hw' & Hfl); [rewrite <- Es', H1; exact Hv1|]. rewrite <- Es' in *.
-  cbn [c08_orc]. apply worse8_fine; [|rewrite <- H1, <- H0; apply IH; assumption].
-  (* everything but monotonicity *)
-  assert (Hrest : forall fl, fl <= floor s ->
-            rec_wfb (s8_rec st) = true /\
-            (match s8_op st, s8_obs st with
-             | CCompact _ _ _, OCompact h COk | CCompact2 _ _, OCompact h COk | CThread _ _, OCompact h COk => h <=? floor_of (s8_rec st)
-             | _, _ => true end) = true /\
-            (match read_rev (c_cur (x_c s)) (s8_op st), s8_obs st with
-             | Some r, ORead res => if r <? fl then rres_eqb res RErr else true
-             | Some _, _ => false
-             | None, _ => true end) = true).
-  { intros fl Hfl'. destruct Hw as (Hwc & Hcc & Htt). destruct Hw' as (Hwc' & _).
-    rewrite <- H0, <- H2. split; [apply rec_wfb_of; exact Hwc'|]. split.
-    - destruct (s8_op st) eqn:Eop; try reflexivity.
-      + cbn [xstep] in E. pose proof (backend_compact_spec (x_c s) r nranges commit_ok Hwc Hcc) as Hb.
-        cbn [cstep] in E. destruct (backend_compact (x_c s) r nranges commit_ok) as [c1 [h res]] eqn:Eb. injection E as <- <-.
-        destruct res; try reflexivity. cbn [x_c]. apply N.leb_le. apply Hb. reflexivity.
-      + cbn [xstep cstep] in E. pose proof (backend_compact_spec (mkC (c_cur (x_c s)) 0 (c_rec (x_c s))) r nranges true Hwc Hcc) as Hb.
-        destruct (backend_compact (mkC (c_cur (x_c s)) 0 (c_rec (x_c s))) r nranges true) as [c1 [h res]] eqn:Eb. injection E as <- <-.
-        destruct res; try reflexivity. cbn [x_c c_rec]. apply N.leb_le. apply Hb. reflexivity.
-      + destruct o as [|h res|]; try reflexivity. destruct res; try reflexivity.
-        apply N.leb_le. apply (thread_accept s i ph s' h); [split; [exact Hwc|split; assumption]|exact E].
-    - destruct (read_rev (c_cur (x_c s)) (s8_op st)) as [r|] eqn:Er; [|reflexivity].
-      assert (Ex : xstep s (s8_op st) = (let '(c', o0) := cstep (x_c s) (s8_op st) in (mkX c' (x_thr s), o0))).
-      { destruct (s8_op st); try reflexivity; discriminate. }
-      rewrite Ex in E.
-      destruct (r <? fl) eqn:El.
-      + apply N.ltb_lt in El. rewrite (below_refused (x_c s) _ r Hwc Er) in E by (unfold floor in Hfl'; lia).
-        injection E as <- <-. reflexivity.
-      + destruct (s8_op st); cbn [read_rev] in Er; try discriminate; cbn [cstep] in E; injection E as <- <-; reflexivity. }
-  unfold c08_step_verdict.
-  destruct Hfl as [Hmono|(i & ph & rv & k & Eop & Ef & E1 & E2)].
-  - left. assert (Hok : c08_step_ok (c_cur (x_c s)) (floor s) st = true); [|rewrite Hok; reflexivity].
-    destruct (Hrest (floor s) (N.le_refl _)) as (R1 & R2 & R3).
-    unfold c08_step_ok. rewrite R1, R2, R3. rewrite <- H0.
-    assert (Hleb : floor s <=? floor s' = true) by (apply N.leb_le; exact Hmono). unfold floor in Hleb |- *. rewrite Hleb. reflexivity.
-  - (* the unconditional Put of an overlapped compaction *)
-    assert (Elab : s8_op st = CThread i PhRacePut).
-    { rewrite Eop in Hrun. cbn [label_ok] in Hrun. rewrite Ef in Hrun. cbn [tphase] in Hrun.
-      destruct ph; try discriminate. exact Eop. }
-    destruct (Hrest 0) as (R1 & R2 & R3); [lia|].
-    assert (Hok0 : c08_step_ok (c_cur (x_c s)) 0 st = true).
-    { unfold c08_step_ok. rewrite R1, R2, R3. destruct (floor_of (s8_rec st)); reflexivity. }
-    destruct (c08_step_ok (c_cur (x_c s)) (floor s) st); [left; reflexivity|right].
-    rewrite Elab, Hok0, R1. reflexivity.
+  destruct (xstep_spec s (s8_op st) Hw) as (Hw' & Hmono); [rewrite <- Es', H1; exact Hv1|]. rewrite <- Es' in *.
+  cbn [c08_orc]. rewrite <- H1, <- H0. fold (floor s'). rewrite (IH s' Hw' Hv2 H).
+  assert (Hok : c08_step_ok (c_cur (x_c s)) (floor s) st = true); [|unfold c08_step_verdict; rewrite Hok; reflexivity].
+  destruct Hw as (Hwc & Hcc & Htt). destruct Hw' as (Hwc' & _).
+  unfold c08_step_ok. rewrite <- H0, <- H2.
+  repeat (apply andb_true_iff; split).
+  - apply rec_wfb_of; exact Hwc'.
+  - apply N.leb_le. exact Hmono.
+  - destruct (s8_op st) eqn:Eop; try reflexivity.
+    + cbn [xstep] in E. pose proof (backend_compact_spec (x_c s) r nranges commit_ok Hwc Hcc) as Hb.
+      cbn [cstep] in E. destruct (backend_compact (x_c s) r nranges commit_ok) as [c1 [h res]] eqn:Eb. injection E as <- <-.
+      destruct res; try reflexivity. cbn [x_c]. apply N.leb_le. apply Hb. reflexivity.
+    + cbn [xstep cstep] in E. pose proof (backend_compact_spec (mkC (c_cur (x_c s)) 0 (c_rec (x_c s))) r nranges true Hwc Hcc) as Hb.
+      destruct (backend_compact (mkC (c_cur (x_c s)) 0 (c_rec (x_c s))) r nranges true) as [c1 [h res]] eqn:Eb. injection E as <- <-.
+      destruct res; try reflexivity. cbn [x_c c_rec]. apply N.leb_le. apply Hb. reflexivity.
+    + destruct o as [|h res|]; try reflexivity. destruct res; try reflexivity.
+      apply N.leb_le. apply (thread_accept s i ph s' h); [split; [exact Hwc|split; assumption]|exact E].
+  - destruct (read_rev (c_cur (x_c s)) (s8_op st)) as [r|] eqn:Er; [|reflexivity].
+    assert (Ex : xstep s (s8_op st) = (let '(c', o0) := cstep (x_c s) (s8_op st) in (mkX c' (x_thr s), o0))).
+    { destruct (s8_op st); try reflexivity; discriminate. }
+    rewrite Ex in E.
+    destruct (r <? floor s) eqn:El.
+    + apply N.ltb_lt in El. rewrite (below_refused (x_c s) _ r Hwc Er El) in E. injection E as <- <-. reflexivity.
+    + destruct (s8_op st); cbn [read_rev] in Er; try discriminate; cbn [cstep] in E; injection E as <- <-; reflexivity.
 Qed.
 
-Lemma c08_oracle_sound c : c08_valid c -> c08_check c = true -> c08_oracle c = None \/ c08_oracle c = Some 1.
+Lemma c08_oracle_sound c : c08_valid c -> c08_check c = true -> c08_oracle c = None.
 Proof.
   intros [Hi Hv] Hc. unfold c08_oracle, c08_check in *.
   apply (c08_run_orc (c8_steps c) (mkX (mkC (c8_init c) 0 None) [])); [|exact Hv|exact Hc].
   split; [left; reflexivity|]. split; [exact Hi|constructor].
 Qed.
-
-(* without thread labels nothing is named: the oracle accepts every sequential history *)
-Definition sequential (c : c08_case) : Prop :=
-  Forall (fun st => match s8_op st with CThread _ _ => False | _ => True end) (c8_steps c).
